@@ -137,6 +137,7 @@ func (fr *frame) run(order []nkey, incoming map[nkey][]edgePayload, rc *runCtx) 
 				for _, r := range x.Results {
 					vals = append(vals, fr.operand(r, env))
 				}
+				fr.schemaC03(alive, vals, vc.pos(x.Pos()), false)
 				rc.rets = append(rc.rets, retInfo{alive, vals, cur})
 				break instrs
 			case *ssa.Panic:
@@ -409,6 +410,7 @@ func (fr *frame) cutLoopHeader(l *loopInfo, cur *State, env map[ssa.Value]Val, r
 
 func (fr *frame) loopStep(l *loopInfo, st *State, env map[ssa.Value]Val, cond string) {
 	vc := fr.vc
+	fr.schemaC03(cond, nil, vc.pos(l.header.Instrs[0].Pos()), true)
 	if l.ann == nil {
 		return
 	}
@@ -430,4 +432,62 @@ func (vc *VC) preLoopTerm(term string, nDecl int) bool {
 		}
 	}
 	return true
+}
+
+// schemaC03: error monotonicity. At a return (or at the back edge of a cut loop) every error a callee
+// of this frame has returned must have become this function's error (or an unsuccessful
+// acknowledgement); at a back edge the iteration that saw an error must not continue.
+func (fr *frame) schemaC03(reach string, rets []Val, pos string, backEdge bool) {
+	vc := fr.vc
+	if !vc.slice["C03"] || fr.exemptC03 || vc.quiet > 0 || len(fr.errCalls) == 0 {
+		return
+	}
+	sig := fr.fn.Signature
+	concl := "false"
+	what := "is not ignored"
+	if !backEdge && errResultIndex(sig) < 0 {
+		// functions without an error result turn errors into other values (bool verdicts, defaults,
+		// acknowledgements); only the acknowledgement constructors are checked
+		rt := ""
+		if sig.Results().Len() == 1 {
+			rt = sig.Results().At(0).Type().String()
+		}
+		if !strings.HasSuffix(rt, "exported.Acknowledgement") && !strings.HasSuffix(rt, "04-channel/types.Acknowledgement") {
+			return
+		}
+	}
+	if !backEdge {
+		if ei := errResultIndex(sig); ei >= 0 && ei < len(rets) {
+			concl = "(not (= (itag " + rets[ei].t + ") 0))"
+			what = "becomes this function's error"
+		} else if sig.Results().Len() == 1 && strings.HasSuffix(sig.Results().At(0).Type().String(), "exported.Acknowledgement") && len(rets) == 1 {
+			if _, ok := vc.eng.specs.funSigs["ackSuccess"]; ok {
+				concl = "(not (ackSuccess " + rets[0].t + "))"
+				what = "becomes an unsuccessful acknowledgement"
+			}
+		} else if sig.Results().Len() == 1 && strings.HasSuffix(sig.Results().At(0).Type().String(), "04-channel/types.Acknowledgement") && len(rets) == 1 {
+			// the acknowledgement struct itself: its response must be the error variant
+			if si := vc.eng.types.structInfoOf(sig.Results().At(0).Type()); si != nil {
+				for i, f := range si.fields {
+					if f.name == "Response" {
+						for k, c := range vc.eng.types.tags {
+							if strings.HasSuffix(k, "04-channel/types.Acknowledgement_Error") && strings.HasPrefix(k, "*") {
+								concl = "(= (itag (" + accessor(si, i) + " " + rets[0].t + ")) " + c + ")"
+								what = "becomes an error acknowledgement"
+							}
+						}
+					}
+				}
+			}
+		}
+	} else {
+		if errResultIndex(sig) < 0 {
+			return
+		}
+		what = "ends the loop"
+	}
+	for _, c := range fr.errCalls {
+		vc.oblige("schema", fmt.Sprintf("%s#schema[C03]:err(%s)", shortFn(fr.fn), c.callee), pos,
+			"an error returned by "+c.callee+" (called at "+c.pos+") "+what, and(and(reach, c.reach), "(not (= (itag "+c.err+") 0))"), concl, []string{"C03"})
+	}
 }
